@@ -17,6 +17,8 @@ mod c07;
 #[cfg(kani)]
 mod c09;
 #[cfg(kani)]
+mod c11;
+#[cfg(kani)]
 mod c13;
 #[cfg(kani)]
 mod c14;
